@@ -149,6 +149,31 @@ def mapped_range(c, inner='KL'):
     cc.eq('function_form_array_converts_to_the_same_parameters', np.asarray(a.parameters), spec, tol=1e-7)
 
 
+def integer_typed_inputs(c, kind):
+    """the value of the input matters, not its storage type: integer-typed vectors, geometry-carrying arrays and sample collections
+    give the outputs of the same values stored as floats (bounded stand-in: native, numpy's dtype rules are not modelled)"""
+    rng = np.random.default_rng(int(c.real('seed', lo=0, hi=10 ** 6)))
+    m, n, N = 3, 4, 3
+    A = rng.standard_normal((m, n)) * 0.7
+    gd = {'default': lambda: n, 'Step': lambda: StepExpansion(np.linspace(0, 1, 2 * n), n_steps=n), 'Image2D:F': lambda: Image2D((2, 2), order='F')}[kind]()
+    nf = 2 * n if kind == 'Step' else n
+    A = rng.standard_normal((m, nf)) * 0.7
+    flat = (lambda v: v.ravel(order='F')) if kind == 'Image2D:F' else (lambda v: v)
+    models = [Model(lambda x: A @ (flat(x) ** 2) + A @ flat(x), m, gd), LinearModel(lambda x: A @ flat(x), lambda y: (A.T @ y).reshape((2, 2), order='F') if kind == 'Image2D:F' else A.T @ y, m, gd)]
+    if kind == 'default': models.append(LinearModel(A))
+    Xi = rng.integers(-3, 4, size=(n, N)); Xf = Xi.astype(float)
+    for k, model in enumerate(models):
+        g = model.domain_geometry
+        c.eq(f'model[{k}]:integer_vector', np.asarray(model.forward(Xi[:, 0])), np.asarray(model.forward(Xf[:, 0])), tol=1e-12)
+        c.eq(f'model[{k}]:integer_cuqiarray', np.asarray(model.forward(CUQIarray(Xi[:, 1], geometry=g))), np.asarray(model.forward(CUQIarray(Xf[:, 1], geometry=g))), tol=1e-12)
+        c.eq(f'model[{k}]:integer_samples', model.forward(Samples(Xi, g)).samples, model.forward(Samples(Xf, g)).samples, tol=1e-12)
+        c.eq(f'model[{k}]:integer_samples_columnwise', model.forward(Samples(Xi, g)).samples[:, 2], np.asarray(model.forward(Xf[:, 2])), tol=1e-12)
+        if isinstance(model, LinearModel):
+            Yi = rng.integers(-3, 4, size=(m, N)); Yf = Yi.astype(float)
+            c.eq(f'model[{k}]:adjoint_integer_vector', np.asarray(model.adjoint(Yi[:, 0])), np.asarray(model.adjoint(Yf[:, 0])), tol=1e-12)
+            c.eq(f'model[{k}]:adjoint_integer_samples', model.adjoint(Samples(Yi, model.range_geometry)).samples, model.adjoint(Samples(Yf, model.range_geometry)).samples, tol=1e-12)
+
+
 def apply_to_distribution(c, n=2):
     A = c.mat('A', 2, n)
     model = LinearModel(A)
@@ -188,6 +213,8 @@ def jobs(tier):
                 J.append(Job(f'gradient:{kind}:domain={dom}:m=3:n={n + 2 if dom.startswith("Image2D") else 3}', lambda c, k=kind, d=dom, n=n: gradient(c, k, d, 3, n + 2 if d.startswith('Image2D') else 3), 'Pbox', GL, rtol=1e-4, maxpaths=256))
     for inner in ('KL', 'Step'):
         J.append(Job(f'forward:range_geometry=Mapped({inner}):output_is_range_parameters', lambda c, i=inner: mapped_range(c, i), 'Pbox', FL + ['cuqi.geometry._geometry:MappedGeometry.fun2par']))
+    for kind in ('default', 'Step', 'Image2D:F'):
+        J.append(Job(f'forward:integer_typed_inputs:domain={kind}', lambda c, k=kind: integer_typed_inputs(c, k), 'B', FL, nnum=3))
     J.append(Job('gradient:range_geometry_not_identity', range_not_identity, 'Pbox', GL))
     J.append(Job('forward:applied_to_distribution_only_renames', apply_to_distribution, 'Pbox', [f'{M}:Model.forward']))
     return J
